@@ -830,6 +830,50 @@ func c18Regions(x *vmc.X, c c18cfg) {
 							}
 						}
 					}
+					// composition used by the provider: keys of a region are allocated to the r nearest
+					// peers *of that region* by walking reg.Keys and reg.Peers together
+					for _, reg := range regions {
+						if reg.Keys.IsEmptyLeaf() {
+							continue
+						}
+						members := AllValues(reg.Peers, bit256.ZeroKey())
+						al := AllocateToKClosest(reg.Keys, reg.Peers, r)
+						gotBy := map[string]map[peer.ID]int{}
+						for pid, batches := range al {
+							for _, b := range batches {
+								for _, h := range b {
+									if gotBy[string(h)] == nil {
+										gotBy[string(h)] = map[peer.ID]int{}
+									}
+									gotBy[string(h)][pid]++
+								}
+							}
+						}
+						for _, h := range AllValues(reg.Keys, bit256.ZeroKey()) {
+							hb := kid.BitsOf(h, 256)
+							sort.Slice(members, func(i, j int) bool { return xorDist(full[members[i]], hb) < xorDist(full[members[j]], hb) })
+							want := members[:min(r, len(members))]
+							g := gotBy[string(h)]
+							okAll := len(g) == len(want)
+							for _, p := range want {
+								if g[p] != 1 {
+									okAll = false
+								}
+							}
+							if !okAll {
+								var gs, ws []string
+								for p := range g {
+									gs = append(gs, full[p][:6])
+								}
+								for _, p := range want {
+									ws = append(ws, full[p][:6])
+								}
+								sort.Strings(gs)
+								x.Failf("C18/RegionAllocation", "cells=%v cp=%q r=%d order=%s region %q: key %s allocated to %v, its %d nearest peers of the region are %v", cellsOf(peers), cp, r, o, reg.Prefix, hb[:6], gs, len(want), ws)
+								return
+							}
+						}
+					}
 					x.Eval(len(regions) > 1)
 				}
 			}
